@@ -141,12 +141,13 @@ def _run(ix, R):
         pe = param_env(fl, f, ['model', 'wngrid'])
         lev = spec(fl, 'log10(model.pressure.pressure_profile_levels[::-1])', pe)
         # defaults: bottom -> max of levels, top -> min of levels
-        txt = {e.name: e for e in fl.of('assign') if e.name in ('P_left', 'P_right', 'weight')}
+        # the two edge arrays, whatever they are called: some local is L[:-1] and some local is L[1:]
         why = []
-        if 'P_left' not in txt or not fl.tab.equal(txt['P_left'].value, spec(fl, 'L[:-1]', {'L': lev})):
-            why.append('P_left %s' % fmt(fl, txt['P_left'].value) if 'P_left' in txt else 'no P_left')
-        if 'P_right' not in txt or not fl.tab.equal(txt['P_right'].value, spec(fl, 'L[1:]', {'L': lev})):
-            why.append('P_right')
+        vals = [e.value for e in fl.of('assign') if isinstance(e.value, RF)]
+        for nm_, sl_ in (('lower edges', 'L[:-1]'), ('upper edges', 'L[1:]')):
+            w_ = spec(fl, sl_, {'L': lev})
+            if not any(fl.tab.equal(v, w_) for v in vals):
+                why.append('no %s (%s of the reversed log10 levels)' % (nm_, sl_))
         R.check('2.flat.levels', 'UNIT', FM + '::FlatMieContribution.prepare_each',
                 'layer edges are log10 of the pressure levels in ascending order (reversed), lower = L[:-1], upper = L[1:]',
                 not why, key='; '.join(why), detail='; '.join(why), loc=f.loc())
